@@ -113,6 +113,8 @@ def regenerate():
     notes["tables"] = translate_tables.generate(REPO, os.path.join(COQ, "Gen", "SrcTables.v"), os.path.join(HARNESS, "fallback"))
     import translate_tojson
     notes["to_json"] = translate_tojson.generate(REPO, os.path.join(COQ, "Gen", "SrcToJson.v"), os.path.join(HARNESS, "fallback"))
+    import translate_flags
+    notes["flags"] = translate_flags.generate(REPO, os.path.join(COQ, "Gen", "SrcFlags.v"), os.path.join(HARNESS, "fallback"))
     import translate_deps
     notes["deps"] = translate_deps.generate(REPO, os.path.join(COQ, "Gen", "SrcDeps.v"), os.path.join(HARNESS, "fallback"))
     return notes
